@@ -721,8 +721,8 @@ Proof.
   - discriminate.
 Qed.
 
-(** C19-F8, exactly: the YAML/mapstructure decoder (of the rule set or, inside
-    the mechanism factory, of a step's config) panics *)
+(** a collaborator taken as data panicked: the YAML/mapstructure decoder of the rule set (C19-F8 before b69f65b)
+    or, inside the mechanism factory, the decoder of a step's config ([SMech]: C19-F8 and C19-F9 before b37641c) *)
 Definition guard_F8 (f : fixes) (proxy def : bool) (e : rs_event) : bool :=
   match process f proxy def [] e with
   | RsExit SDecode | RsExit SMech => true
@@ -1611,3 +1611,53 @@ Proof.
   intros F P V D C. unfold process. rewrite P, V. simpl.
   rewrite (load_rules_dup f proxy def r rs2 F rs1 []); auto.
 Qed.
+
+(** * Additions of the final pass *)
+
+(** a panic of the rule-set decoder is an exit for every variant of the code: there is no recover around it.
+    (C19-F8's repair, checkKeys, changes the DATA of a case — the parser's answer — not a function of this model.) *)
+Theorem decoder_panic_is_exit f proxy def st e : ev_parse e = PPanics -> process f proxy def st e = RsExit SDecode.
+Proof. intros P. unfold process. rewrite P. reflexivity. Qed.
+
+(** exactness of the guard of C19-F11 on the tree as it is (every event re-examines the file): an event that
+    finds the rule file empty changes the stored state exactly when the guard fires, i.e. for every LOADED source *)
+Theorem fs_empty_changes_state_iff f st e :
+  fx18 f = true -> fe_read e = RdEmpty ->
+  (guard_F11 f st e = true <-> exists x, fs_changed f st e = FsDone x /\ (fe_proc_ok e = true -> fr_state x <> st)
+                                          /\ fr_calls x = [PDeleted]).
+Proof.
+  unfold guard_F11, fs_changed, fs_deleted, op_class. intros F R. rewrite F, R.
+  destruct (o_create (fe_bits e) || o_write (fe_bits e) || o_chmod (fe_bits e) || o_remove (fe_bits e) || o_rename (fe_bits e)).
+  - destruct st as [h|]; split; try discriminate.
+    + intros _. destruct (fe_proc_ok e); eexists; splits; try reflexivity; try discriminate.
+    + intros _. reflexivity.
+    + intros [x [H [_ C]]]. inversion H. subst x. discriminate.
+  - split; [discriminate|]. intros [x [H [_ C]]]. inversion H. subst x. discriminate.
+Qed.
+
+(** events that find a bad (non-empty) content or an unreadable file after a good one keep it *)
+Definition fs_bad_event (e : fs_event) : bool :=
+  match fe_read e with RdBad | RdOpenErr => true | _ => false end.
+
+Theorem fs_run_all_rejected f st es : fx18 f = true -> forallb fs_bad_event es = true -> fs_run f st es = Alive st.
+Proof.
+  intros F. revert st. induction es as [|e r IH]; intros st H; simpl in *; [reflexivity|].
+  apply andb_true_iff in H. destruct H as [B H]. unfold fs_bad_event in B. unfold fs_changed, op_class. rewrite F.
+  destruct (o_create (fe_bits e) || o_write (fe_bits e) || o_chmod (fe_bits e) || o_remove (fe_bits e) || o_rename (fe_bits e)).
+  - destruct (fe_read e); try discriminate; simpl; apply IH; exact H.
+  - simpl. apply IH; exact H.
+Qed.
+
+Theorem fs_run_all_rejected_now st es : forallb fs_bad_event es = true -> fs_run all_fixes st es = Alive st.
+Proof. apply fs_run_all_rejected. reflexivity. Qed.
+
+(** non-vacuity of the rule-set theorem for the tree as it is: its hypothesis holds and the set is applied *)
+Example ruleset_nonvacuous_now :
+  let e := ev_of [{| r_name := "r"; r_id := "r#1";
+                     r_exec := [{| s_map := [("authenticator", YStr "anon"); ("config", YMap [("subject", YStr "x")])]%string;
+                                   s_mech := MOk; s_cel := false |};
+                                {| s_map := [("authorizer", YStr "cel"); ("if", YStr "true")]%string; s_mech := MOk; s_cel := true |}];
+                     r_eh := [{| s_map := [("error_handler", YStr "default")]%string; s_mech := MOk; s_cel := false |}];
+                     r_backend := false; r_rest := MOk |}] in
+  ev_oracle_total all_fixes e = true /\ process all_fixes false false ["old"%string] e = RsApplied ["r#1"%string].
+Proof. vm_compute. split; reflexivity. Qed.
